@@ -316,6 +316,49 @@ Proof.
   exact (slurm_mentions_all_partial a Hv Hg w Hw).
 Qed.
 
+Lemma mk_opts ch : forallb operand_ok_opt ch = true -> mapM mk_opt ch = Ok ch /\ Forall valid_res (somes ch).
+Proof.
+  induction ch as [|a ch IH]; cbn [forallb mapM somes]; intros H; [split; [reflexivity|constructor]|].
+  apply andb_true_iff in H as [Ha Hch]. destruct (mk_opt_operand a Ha) as [E Va]. destruct (IH Hch) as [E' Vs].
+  rewrite E. cbn [bind]. rewrite E'. cbn [bind]. split; [reflexivity|].
+  destruct a; [now constructor|exact Vs].
+Qed.
+
+Lemma dominates_refl r : valid_res r -> dominates r r.
+Proof.
+  intros H. apply valid_res_parts in H as (_ & _ & Hm & Ht).
+  split; [apply le_oz_refl|]. split; [apply le_oz_refl|]. split; [now apply size_le_refl|now apply dur_le_refl].
+Qed.
+
+Lemma map_opt_enc_refl ch : list_eqb sx_eqb (map (sx_opt sx_res) ch) (map (sx_opt sp_enc) ch) = true.
+Proof.
+  rewrite (map_ext (sx_opt sp_enc) (sx_opt sx_res)); [apply list_sx_eqb_refl|].
+  intros [x|]; cbn [sx_opt]; [apply sp_enc_eq|reflexivity].
+Qed.
+
+Lemma spec_maybe_max e ch : spec_ok (CMaybeMax e ch) (run (CMaybeMax e ch)) = true.
+Proof.
+  unfold spec_ok, run.
+  destruct (forallb operand_ok_opt ch && match e with ERes r => operand_ok r | _ => true end) eqn:H;
+    cbn [negb]; [|reflexivity].
+  apply andb_true_iff in H as [Hch He]. destruct (mk_opts ch Hch) as [Ech Vs]. rewrite Ech.
+  destruct e as [|r|d]; cbn [mk_explicit].
+  - unfold maybe_max_resources. destruct (somes ch) as [|c [|c2 l]] eqn:Es.
+    + rewrite map_opt_enc_refl. reflexivity.
+    + rewrite map_opt_enc_refl. cbn [andb sx_opt]. inversion Vs as [|? ? Vc _]; subst.
+      unfold sx_res_sz. rewrite (ok_with_enc false c _ (valid_wf_mem _ Vc)).
+      cbn [forallb]. rewrite (dominates_b_ok c c Vc (dominates_refl c Vc)). reflexivity.
+    + rewrite map_opt_enc_refl. cbn [andb].
+      destruct (combine_max_upper_bound _ Vs) as (res & Ec & Vres & Hd). rewrite Ec. cbn [fst sx_opt].
+      unfold sx_res_sz. rewrite (ok_with_enc false res _ (valid_wf_mem _ Vres)).
+      apply forallb_forall. intros r Hin. apply dominates_b_ok; auto.
+  - destruct (mk_operand r He) as [E Vr]. rewrite E. cbn [bind maybe_max_resources].
+    rewrite map_opt_enc_refl. cbn [andb sx_opt].
+    unfold sx_res_sz. rewrite (ok_with_enc false r _ (valid_wf_mem _ Vr)).
+    apply (same_quantities_enc false). now apply valid_wf_mem.
+  - cbn [maybe_max_resources]. rewrite map_opt_enc_refl. reflexivity.
+Qed.
+
 (* the executable statement holds of the model's observation for every case outside the known finding *)
 Theorem spec_ok_run_partial c : known_region c = false -> spec_ok c (run c) = true.
 Proof.
@@ -328,6 +371,7 @@ Proof.
   - apply spec_dict.
   - apply spec_from_dict.
   - now apply spec_slurm.
+  - apply spec_maybe_max.
 Qed.
 
 Theorem spec_ok_run_refuted : exists c, known_region c = true /\ spec_ok c (run c) = false.
